@@ -160,6 +160,41 @@ class Driver(object):
         return p
 
 
+class RejectDriver(Driver):
+    """keeps proposing one candidate whose accept test is a genuine decision and rejects it K times in a row (a path of positive
+    probability), then accepts; every other decision takes its first option."""
+    def __init__(self, K, abort_after=12):
+        Driver.__init__(self, (), max_decisions=6 * K + 2000)
+        self.K = K
+        self.j = 0
+        self.rejections = 0
+        self.after_choice = False
+        self.n = 0
+        self.done_at = None
+        self.abort_after = abort_after
+
+    def decide(self, kind, probs, info=None):
+        self.n += 1
+        if self.n > self.max_decisions or (self.abort_after is not None and self.done_at is not None and self.n > self.done_at + self.abort_after):
+            raise DepthExceeded()
+        self.decisions.append(None)
+        if kind == 'choice':
+            self.after_choice = True
+            if self.rejections == 0:
+                self.j += 1          # still looking for a candidate that can be rejected
+            return self.j % len(probs)
+        if kind == 'cmp' and self.after_choice:
+            self.after_choice = False
+            if self.rejections < self.K:
+                self.rejections += 1
+                return 1
+            if self.done_at is None:
+                self.done_at = self.n
+            return 0
+        self.after_choice = False
+        return 0
+
+
 class RngProxy(object):
     """stands in for the module object `random` inside EoN.simulation."""
     def __init__(self, seed=0, driver=None, copy_pop=True):
